@@ -150,3 +150,59 @@ def generate(tier, seed, info):
     info["cases"] = len(lines)
     info["long_runs"] = n_long
     return common.shard(lines)
+
+
+def extra_checks(tier, seed, exes, oc, gen_info, log):
+    """the same programs run twice through the real Cpu::run (with its wall-clock pacing): once on an otherwise idle
+    process group, once while every core is kept busy; the observations (registers, memory, state count, message
+    sequence) must be identical - the property's 'independent of host speed / repeated runs under different host load'"""
+    import os, subprocess, sys, shutil, time
+    here = os.path.dirname(os.path.dirname(os.path.abspath(__file__)))
+    sys.path.insert(0, here)
+    import check
+    wd = os.path.join(check.CACHE, "load-%d" % os.getpid())
+    os.makedirs(wd, exist_ok=True)
+    try:
+        lines = []
+        for name, part, prof in generate("quick", seed + 101, {}):
+            lines += part
+        short = [l for l in lines if "ops=run:4e20" in l][: (150 if tier == "quick" else 1500)]
+        longr = [l for l in lines if "ops=run:4e20" not in l][: (3 if tier == "quick" else 12)]
+        cf = os.path.join(wd, "load.cases")
+        with open(cf, "w") as f:
+            for l in short + longr:
+                f.write(l + "\n")
+        outs = []
+        for mode in ("idle", "loaded"):
+            burners = []
+            if mode == "loaded":
+                for _ in range(2 * (os.cpu_count() or 8)):
+                    burners.append(subprocess.Popen([sys.executable, "-c", "while True: pass"]))
+                time.sleep(0.2)
+            try:
+                iout = cf + "." + mode
+                env = dict(os.environ, KOGE29_VERIF_DRIVER="1", KOGE29_VERIF_IN=cf, KOGE29_VERIF_OUT=iout)
+                t0 = time.time()
+                with open(cf + ".console." + mode, "wb") as cons:
+                    p = subprocess.run([exes["rel"]], env=env, stdout=cons, stderr=subprocess.DEVNULL, timeout=1500)
+                outs.append((mode, p.returncode, open(iout).read().split("\n") if os.path.exists(iout) else [], time.time() - t0,
+                             open(cf + ".console." + mode, "rb").read()))
+            finally:
+                for b in burners:
+                    b.kill()
+                for b in burners:
+                    b.wait()
+        (m0, rc0, o0, t0s, c0), (m1, rc1, o1, t1s, c1) = outs
+        diff = [i for i in range(max(len(o0), len(o1))) if (o0[i] if i < len(o0) else None) != (o1[i] if i < len(o1) else None)]
+        gen_info["host_load"] = {"programs": len(short) + len(longr), "idle_s": round(t0s, 1), "loaded_s": round(t1s, 1),
+                                 "differing_observations": len(diff), "console_equal": c0 == c1}
+        log("[C13] host load: %d programs run idle (%.1fs) and with every core busy (%.1fs): %d observations differ, console %s" % (
+            len(short) + len(longr), t0s, t1s, len(diff), "equal" if c0 == c1 else "DIFFERS"))
+        oc.evaluations += len(short) + len(longr)
+        oc.in_domain += len(short) + len(longr)
+        if rc0 != 0 or rc1 != 0 or diff or c0 != c1:
+            k = diff[0] if diff else 0
+            oc.violations.append((short[k] if k < len(short) else "host-load run", {"idle": o0[k] if k < len(o0) else None, "rc": [rc0, rc1]},
+                                  {"loaded": o1[k] if k < len(o1) else None}, {"rule": "same program, different host load: observations must be identical"}, ["host-load"]))
+    finally:
+        shutil.rmtree(wd, ignore_errors=True)
